@@ -182,6 +182,7 @@ def parse_unit(name, vacuity=False, shard=None):
     u.vacuity_targets = []
     u.shard = shard
     u.sharded = []
+    u.lost = []
     if not os.path.exists(u.path):
         raise Undecided("no such unit: " + name)
     raw = open(u.path).read().split("\n")
@@ -436,6 +437,8 @@ def emit_fn(u, file, nm, block):
         elif s.startswith("//@uses"):
             uses.append(s[len("//@uses"):].strip())
             mode = None
+        elif s.startswith("//@closures"):
+            mode = None
         elif s.startswith("//@loop"):
             parts = s.split()
             cur = {"ord": int(parts[1]), "lines": []}
@@ -525,13 +528,41 @@ def emit_fn(u, file, nm, block):
             proof_lines = []
             etas = []
 
-    # ---- closure anchors
+    # ---- closure / loop anchors.  A function whose structure no longer matches its contract (closures or loops added or
+    #      removed) cannot be verified with the spliced headers: it is emitted as an assumed stub so that the rest of the unit
+    #      still verifies, and reported as LOST (the check is then undecided for it unless a bounded twin refutes it).
     real_closures = it["closures"]
+    lost = None
+    expected_closures = None
+    for l in block:
+        m = re.match(r"\s*//@closures\s+(\d+)", l)
+        if m:
+            expected_closures = int(m.group(1))
+    if closures and expected_closures is None:
+        expected_closures = None
     for ordn, c in closures.items():
         if ordn >= len(real_closures):
-            raise Undecided("anchor lost: %s::%s has %d closures, contract names closure %d" % (file, nm, len(real_closures), ordn))
-        if c["let"] is not None and real_closures[ordn]["let_name"] != c["let"]:
-            raise Undecided("anchor lost: %s::%s closure %d is no longer `let %s`" % (file, nm, ordn, c["let"]))
+            lost = "anchor lost: %s::%s has %d closures, contract names closure %d" % (file, nm, len(real_closures), ordn)
+        elif c["let"] is not None and real_closures[ordn]["let_name"] != c["let"]:
+            lost = "anchor lost: %s::%s closure %d is no longer `let %s`" % (file, nm, ordn, c["let"])
+    if lost is None and closures and len(real_closures) != max(closures.keys()) + 1 and expected_closures is None:
+        # every contract in this code base annotates all closures of its function: a different count is a restructuring
+        if len(closures) == max(closures.keys()) + 1:
+            lost = "anchor lost: %s::%s has %d closures, contract annotates %d" % (file, nm, len(real_closures), len(closures))
+    for ordn in loops_spec:
+        if ordn >= len(it.get("loops", [])):
+            lost = "anchor lost: %s::%s has %d loops, contract names loop %d" % (file, nm, len(it.get("loops", [])), ordn)
+    if lost is not None:
+        u.lost.append({"fn": nm, "file": file, "reason": lost, "props": props})
+        if vac_rename:
+            # vacuity twin: the stub under the real name is already there; no verified copy for a lost function
+            u.vacuity_targets.remove(nm)
+            return
+        emit_external_stub(u, it, file, nm, ret, spec_lines, {"kind": "assumed", "fn": nm})
+        u.functions.append({"name": nm, "file": file, "line_start": it["line_start"], "line_end": it["line_end"],
+                            "sha256": sha(b[it["start"]:it["end"]]), "props": props, "closures_under_contract": [], "closures_total": len(real_closures),
+                            "panic_sites": it["panic_sites"], "calls": it.get("calls", []), "lost": lost})
+        return
     fname = nm
     first_line = len(u.out_lines) + 1
     info_base = {"kind": "fn", "fn": fname, "props": props}
